@@ -29,6 +29,10 @@ def gen_inputs(ctx):
             # mutations that reach the value through held child views (obtained earlier, kept while the value changes
             # by other routes): still 'the content the sequence implies'
             yield gen_history(rng, t, rng.randrange(6, 24), p_child=0.3)
+        elif i % 4 == 1:
+            # 'with every argument': some commands carry an argument the operation must refuse (index next to the valid
+            # range, wrong-width / over-length value, append to a full list ...) — the value must stay what it was
+            yield gen_history(rng, t, rng.randrange(3, 28), top_only=True, p_invalid=0.2)
         else:
             yield gen_history(rng, t, rng.randrange(3, 28), top_only=True)
 
@@ -53,11 +57,51 @@ def build(inp):
             c.why = "root differs from a fresh value with the same exported content"
         elif bytes(fresh.encode_bytes()) != bytes(top.encode_bytes()):
             c.why = "encoding differs from a fresh value with the same exported content"
+        else:
+            # ... indistinguishable also as a dictionary key / set member: equal, and hashing like the fresh value
+            try:
+                same = (top == fresh) and hash(top) == hash(fresh)
+            except Exception as ex:  # noqa
+                same = False
+                c.why = "the mutated view cannot be hashed / compared like a fresh value: %r" % (ex,)
+            if not same and c.why is None:
+                c.why = "the mutated view is not == / does not hash like a fresh value with the same content"
     except Exception as e:
         c.why = "mutated view cannot be exported / rebuilt: %r" % (e,)
     if c.why is None:
+        c.why = neighbour_copy_disagrees(x)
+    if c.why is None:
         c.why = lazy_disagreement(inp, obs)
     return c
+
+
+def neighbour_copy_disagrees(sh):
+    """model-free: on copies of every held vector / list / container view, the composite element (field) sitting NEXT to a
+    slot is written into that slot — once as the very view obtained from the neighbour (same node object), once as an
+    equal value decoded afresh from its bytes: both copies must end with the same root and encoding"""
+    for x, t in zip(sh.views, sh.types):
+        if t is None or t[0] not in ("vec", "list", "cont"):
+            continue
+        try:
+            if t[0] == "cont":
+                tys = list(t[1])
+                get, put = (lambda v, i: getattr(v, "f%d" % i)), (lambda v, i, a: setattr(v, "f%d" % i, a))
+            else:
+                tys = [t[1]] * min(len(x), 6)
+                get, put = (lambda v, i: v[i]), (lambda v, i, a: v.__setitem__(i, a))
+            for i in range(len(tys)):
+                for j in (i - 1, i + 1):
+                    if not (0 <= j < len(tys)) or tys[i] != tys[j] or is_basic(tys[i]):
+                        continue
+                    a, b = x.copy(), x.copy()
+                    put(a, j, get(a, i))
+                    put(b, j, T(tys[i]).decode_bytes(bytes(get(b, i).encode_bytes())))
+                    if a.hash_tree_root() != b.hash_tree_root() or bytes(a.encode_bytes()) != bytes(b.encode_bytes()):
+                        return ("slot %d of a %s assigned the view of its neighbour %d differs from the same slot assigned "
+                                "an equal value built afresh" % (j, t[0], i))
+        except Exception as ex:  # noqa
+            return "assigning the neighbouring element view into a slot raised %r" % (ex,)
+    return None
 
 
 def direct_violation(c):
